@@ -1,5 +1,21 @@
-"""P_fr -- C16: the FillRequest adapter beyond `_run_fill_compute` (contracts/C16.py).  Sidecar contracts of
-lena/core/adapters.py (FillRequest.__init__ / fill / request / reset / _run_run / _run_fill_compute with element states)."""
+"""P_fr -- C16: the FillRequest adapter beyond the block discipline of `_run_fill_compute` (contracts/C16.py).
+Sidecar contracts of lena/core/adapters.py (FillRequest.__init__ / fill / request / reset / _run_run, and _run_fill_compute
+once more WITH element states), lena/core/fill_request_seq.py (request, reset), fill_compute_seq.py (compute),
+fill_seq.py (_Fill.fill), lena_sequence.py (__len__).
+
+Element interface: el_fill / el_request / el_request_state / el_reset / el_run (+ el_run_reads for run elements that pull
+from the iterator they are given, pyvc/lib_run.py).  Reference of the property text (bounded/C16.py `blocks_spec`) as
+recursive specification functions: fold_fill_at, fr_start, fr_outlen (register_specs).
+
+fill()/request() are proved per REGION of the protocol state (views FillRequest_in / FillRequest_out with the invariant
+`_n_count` = values of the current block held by the element, <= bufsize; buffered input only behind a complete block):
+the regions in which the unchanged tree satisfies the property carry props=["C16"]; the clauses of the property that the
+unchanged tree violates (known_findings.json, C16) are stated in full, un-weakened, in contracts with props=[] at the end
+of this file (run them with tools/dbg.py: each ends in `failed` obligations).
+
+Not reached: FillRequest._run_run with buffer_output (an instance of a class defined inside the function, whose generator
+__iter__ sets a counter when it is exhausted, is iterated by the wrapped element), FillRequestSeq.__init__ /
+_init_sequence_with_el (FillSeq construction)."""
 from pyvc.contracts import Contract, LoopSpec, ClassSpec
 
 AD = "lena/core/adapters.py"
@@ -52,6 +68,15 @@ def register_specs(ix):
 
     def sp_fr_outlen(ip, st, pos, kws):
         return Num(T("(fr_outlen %s)" % args6(ip, st, pos), "Int"))
+    def sp_whole_blocks(ip, st, pos, kws):
+        """whole_blocks(m, n): m is a multiple of the block size n (m == q * n for some q >= 0)"""
+        ip.reg.fun_decl("whole_blocks", "(define-fun-rec whole_blocks ((m Int) (n Int)) Bool "
+                                        "(ite (or (<= m 0) (<= n 0)) (= m 0) (whole_blocks (- m n) n)))")
+        return Bool(T("(whole_blocks %s %s)" % (ip.num(pos[0]).s, ip.num(pos[1]).s), "Bool"))
+    ix.spec_names["whole_blocks"] = sp_whole_blocks
+    # (FillRequest._run_run has a local variable called el_run, which hides the specification function of that name)
+    from pyvc.speclib import sp_el_run
+    ix.spec_names["run_results"] = sp_el_run
     ix.spec_names["fold_fill_at"] = sp_fold_fill_at
     ix.spec_names["fr_start"] = sp_fr_start
     ix.spec_names["fr_outlen"] = sp_fr_outlen
@@ -71,25 +96,43 @@ def register(ix):
     TYPE_BAD = ("((reset and not callable_m(el, reset_name)) or (not callable_m(el, fill) and not %s) or "
                 "(callable_m(el, fill) and reset is None) or "
                 "(not callable_m(el, request) and not callable_m(el, 'compute') and not %s))" % (HAS_RUN, HAS_RUN))
-    VALUE_BAD = "(bufsize < 1 or (not yield_on_remainder and (1 if buffer_input else 0) + (1 if buffer_output else 0) != 1))"
+    VALUE_BAD_INT = "(bufsize < 1 or (not yield_on_remainder and (1 if buffer_input else 0) + (1 if buffer_output else 0) != 1))"
 
-    def init_case(rty, bity, boty):
+    def init_case(rty, bity, boty, nty="Int"):
+        VALUE_BAD = VALUE_BAD_INT if nty == "Int" else "(bufsize != int(bufsize) or %s)" % VALUE_BAD_INT
         return Contract(
-            AD, "FillRequest.__init__", name="FillRequest.__init__[reset:%s buffer_input:%s buffer_output:%s]" % (rty, bity, boty),
-            params={"self": "Self[FillRequest0]", "el": "Obj", "bufsize": "Int", "reset": rty, "buffer_input": bity,
+            AD, "FillRequest.__init__", name="FillRequest.__init__[reset:%s buffer_input:%s buffer_output:%s%s]" % (
+                rty, bity, boty, "" if nty == "Int" else " bufsize:" + nty),
+            params={"self": "Self[FillRequest0]", "el": "Obj", "bufsize": nty, "reset": rty, "buffer_input": bity,
                     "buffer_output": boty, "yield_on_remainder": "Bool", "fill": "Str", "request": "Str", "reset_name": "Str"},
             raises={"LenaTypeError": "?", "LenaValueError": "?"},
             exc_ensures={"LenaTypeError": [TYPE_BAD], "LenaValueError": [VALUE_BAD]},
             ensures=["not %s" % TYPE_BAD, "not %s" % VALUE_BAD,
                      "self._el is el", "self.bufsize == bufsize", "self._reset == (True if reset else False)",
                      "self._yield_on_remainder == yield_on_remainder",
-                     "self._buffer_input == (True if buffer_input else False)"],
+                     "self._buffer_input == (True if buffer_input else False)",
+                     # which methods of el the adapter uses, and which of its own methods it disables
+                     "callable_m(el, reset_name) implies self._el_reset is method(el, reset_name)",
+                     "not callable_m(el, reset_name) implies self.reset is None",
+                     # a Run element is run block by block; otherwise the flow is filled / requested block by block
+                     "%s implies self.run is self._run_run" % HAS_RUN,
+                     "not %s implies self.run is self._run_fill_compute" % HAS_RUN,
+                     "callable_m(el, fill) implies self._el_fill is method(el, fill) and self._n_count == 0",
+                     "callable_m(el, fill) and buffer_input implies len(self._buffer_in) == 0",
+                     "callable_m(el, fill) and not buffer_input implies len(self._buffer_out) == 0",
+                     "not callable_m(el, fill) implies self.fill is None",
+                     # request is preferred to compute
+                     "callable_m(el, request) implies self._el_request is method(el, request)",
+                     "not callable_m(el, request) and callable_m(el, 'compute') implies self._el_request is method(el, 'compute')",
+                     "not callable_m(el, request) and not callable_m(el, 'compute') implies self.request is None"],
             modifies=["self._el_reset", "self.reset", "self._reset", "self._buffer_input", "self.run", "self._el_fill",
                       "self._n_count", "self._buffer_in", "self._buffer_out", "self.fill", "self._el_request", "self.request",
                       "self.bufsize", "self._yield_on_remainder", "self._el"])
     ix.add(Contract(AD, "FillRequest.__init__", props=["C16"],
                     cases=[init_case(r, bi, bo) for r in ("Bool", "None") for bi, bo in
-                           (("Bool", "Bool"), ("None", "None"), ("Bool", "None"), ("None", "Bool"))]))
+                           (("Bool", "Bool"), ("None", "None"), ("Bool", "None"), ("None", "Bool"))] +
+                    # `bufsize must be a natural number`: a float is accepted iff it is integral
+                    [init_case("Bool", "Bool", "Bool", "Real")]))
 
     # ------------------------------------------------------------------ fill / request, buffer_output
     FO = dict(F, _n_count="Int", _buffer_input="Bool", _buffer_out="Lst[V]")
@@ -148,25 +191,30 @@ def register(ix):
     LO = "(_nblk - 1) * self.bufsize"
     CUR = "fold_fill_at(self._el, %s, content(flow), %s, pulled(flow) - %s)" % (START(LO), LO, LO)
     BLK = "pulled(flow) == _nblk * self.bufsize"
+    # (at an exit the ghost block counter is the witness q + 1 of: len(flow) == q * bufsize + r with 0 <= r < bufsize)
+    REM = "fold_fill_at(self._el, %s, content(flow), %s, len(content(flow)) - %s)" % (START(LO), LO, LO)
+    # ghost call counters: every value pulled is filled once; one request per block started; a reset after each complete block iff reset
+    CC = lambda nreq, nres: ["call_count('fill') == pulled(flow)", "call_count('request') == " + nreq,
+                             "call_count('reset') == (%s if self._reset else 0)" % nres]
     INBLK = ["_nblk >= 1", "pulled(flow) >= 1", "elstate(self._el) == " + CUR]
     ix.add(Contract(
         AD, "FillRequest._run_fill_compute", qualkey="FillRequest._run_fill_compute#state",
         name="FillRequest._run_fill_compute[element states]", props=["C16"],
         params={"self": "Self[FillRequest]", "flow": "Iter[V]"}, generator=True, yields="V",
-        requires=["pulled(flow) == 0"], ghost={"elstate": True},
+        requires=["pulled(flow) == 0"], ghost={"elstate": True, "call_count": True},
         raises={"LenaStopFill": "?"},
         loops={
-            0: LoopSpec(invariant=[BLK, "_nblk >= 0", "len(out) == " + OUTLEN("pulled(flow)"),
+            0: LoopSpec(invariant=CC("_nblk", "_nblk") + [BLK, "_nblk >= 0", "len(out) == " + OUTLEN("pulled(flow)"),
                                    # between blocks: the element is in the state the reference prescribes (reset iff reset is set)
                                    "elstate(self._el) == " + START("pulled(flow)")],
                         init_ghost={"_nblk": "0"}, body_ghost={"_nblk": "_nblk + 1"}, ghost={"_nblk": "Int"},
                         decreases="len(content(flow)) - pulled(flow)"),
-            1: LoopSpec(invariant=INBLK + ["1 <= nfills <= self.bufsize", "pulled(flow) == %s + nfills" % LO,
+            1: LoopSpec(invariant=CC("_nblk - 1", "_nblk - 1") + INBLK + ["1 <= nfills <= self.bufsize", "pulled(flow) == %s + nfills" % LO,
                                            "len(out) == " + OUTLEN(LO)]),
-            2: LoopSpec(invariant=["_nblk >= 1", "pulled(flow) >= 1", "pulled(flow) == len(content(flow))", "pulled(flow) < _nblk * self.bufsize",
+            2: LoopSpec(invariant=CC("_nblk", "_nblk - 1") + ["_nblk >= 1", "pulled(flow) >= 1", "pulled(flow) == len(content(flow))", "pulled(flow) < _nblk * self.bufsize",
                                    "pulled(flow) > " + LO, "self._yield_on_remainder", "len(out) == %s + _i" % OUTLEN(LO),
                                    "elstate(self._el) == el_request_state(self._el, %s)" % CUR]),
-            3: LoopSpec(invariant=[BLK, "_nblk >= 1", "pulled(flow) >= 1", "len(out) == %s + _i" % OUTLEN(LO),
+            3: LoopSpec(invariant=CC("_nblk", "_nblk - 1") + [BLK, "_nblk >= 1", "pulled(flow) >= 1", "len(out) == %s + _i" % OUTLEN(LO),
                                    "elstate(self._el) == el_request_state(self._el, %s)" % CUR]),
         },
         at_call={
@@ -186,5 +234,252 @@ def register(ix):
             "0 <= len(out) - %s < len(el_request(self._el, %s))" % (OUTLEN(LO), CUR),
             "yielded == el_request(self._el, %s)[len(out) - %s]" % (CUR, OUTLEN(LO)),
             "pulled(flow) <= _nblk * self.bufsize"],
-        ensures=["pulled(flow) == len(content(flow))"],
+        ensures=["pulled(flow) == len(content(flow))", "call_count('fill') == len(content(flow))",
+                 # nothing but the results of the complete blocks, plus those of the final partial block iff yield_on_remainder
+                 ("_nblk >= 1 and %s <= len(content(flow)) < %s + self.bufsize" % (LO, LO)).replace("_nblk", "local(_nblk)"),
+                 ("len(out) == %s + (len(el_request(self._el, %s)) if self._yield_on_remainder and len(content(flow)) > %s else 0)" % (
+                     OUTLEN(LO), REM, LO)).replace("_nblk", "local(_nblk)")],
         modifies=["flow"]))
+
+    # ------------------------------------------------------------------ request, buffer_input
+    S0 = "old(elstate(self._el))"
+    B0 = "old(self._buffer_in)"
+    S1 = "(el_reset(self._el) if self._reset else el_request_state(self._el, %s))" % S0
+    L0 = "len(el_request(self._el, %s))" % S0
+    BARGS = "self._el, %s, %s, self.bufsize, {lo}, self._reset" % (S1, B0)
+    BSTART = lambda lo: "fr_start(%s)" % BARGS.format(lo=lo)
+    BOUTLEN = lambda lo: "fr_outlen(%s)" % BARGS.format(lo=lo)
+    BLO = "(len(%s) - len(self._buffer_in))" % B0
+    BCUR = lambda k: "fold_fill_at(self._el, %s, %s, %s, %s)" % (BSTART(BLO), B0, BLO, k)
+    WINV = ["buffer_in is self._buffer_in", "bufsize == self.bufsize", "self._n_count == 0",
+            "len(self._buffer_in) <= len(%s)" % B0, "whole_blocks(len(self._buffer_in), self.bufsize)",
+            "all(self._buffer_in[k] == %s[%s + k] for k in range(len(self._buffer_in)))" % (B0, BLO)]
+    ix.add(Contract(
+        AD, "FillRequest.request", qualkey="FillRequest_in.request", name="FillRequest.request[buffer_input, complete blocks]",
+        props=["C16"], ghost={"elstate": True},
+        params={"self": "Self[FillRequest_in]"}, generator=True, yields="V",
+        # the request comes at a block boundary: the element holds a complete block and the buffer holds whole blocks
+        requires=["not self._yield_on_remainder", "self._n_count == self.bufsize", "whole_blocks(len(self._buffer_in), self.bufsize)"],
+        loops={0: LoopSpec(invariant=["len(out) == _i", "self._n_count == self.bufsize", "same(self._buffer_in, %s)" % B0,
+                                      "elstate(self._el) == el_request_state(self._el, %s)" % S0]),
+               3: LoopSpec(invariant=WINV + ["0 <= nfills <= self.bufsize", "nfills <= len(self._buffer_in)",
+                                             "elstate(self._el) == " + BCUR("nfills"),
+                                             "len(out) == %s + %s" % (L0, BOUTLEN(BLO))],
+                           decreases="2 * len(self._buffer_in) - nfills"),
+               4: LoopSpec(invariant=WINV + ["nfills == self.bufsize", "nfills <= len(self._buffer_in)",
+                                             "elstate(self._el) == el_request_state(self._el, %s)" % BCUR("self.bufsize"),
+                                             "len(out) == %s + %s + _i" % (L0, BOUTLEN(BLO))])},
+        at_yield=["in_loop(0) implies len(out) < %s and yielded == el_request(self._el, %s)[len(out)]" % (L0, S0),
+                  "not in_loop(0) implies 0 <= len(out) - %s - %s < len(el_request(self._el, %s))" % (L0, BOUTLEN(BLO), BCUR("self.bufsize")),
+                  "not in_loop(0) implies yielded == el_request(self._el, %s)[len(out) - %s - %s]" % (BCUR("self.bufsize"), L0, BOUTLEN(BLO))],
+        ensures=["len(out) == %s + %s" % (L0, BOUTLEN("len(%s)" % B0)),
+                 "self._n_count == 0", "len(self._buffer_in) == 0",
+                 "elstate(self._el) == " + BSTART("len(%s)" % B0)],
+        modifies=["self._n_count", "self._buffer_in"]))
+
+    UNREACHABLE = LoopSpec(invariant=["False"])        # (proved at the loop's entry: no execution of this case gets there)
+    UNTOUCHED = ["len(out) == 0", "self._n_count == old(self._n_count)", "len(self._buffer_in) == 0"]
+    ix.add(Contract(
+        AD, "FillRequest.request", qualkey="FillRequest_in.request#incomplete",
+        name="FillRequest.request[buffer_input, incomplete block]", props=["C16"], ghost={"elstate": True},
+        params={"self": "Self[FillRequest_in]"}, generator=True, yields="V",
+        # (with reset set and a partly filled element the clause fails on the unchanged tree: see below)
+        requires=["not self._yield_on_remainder", "self._n_count < self.bufsize", "not self._reset or self._n_count == 0"],
+        loops={0: UNREACHABLE, 4: UNREACHABLE,
+               3: LoopSpec(invariant=["buffer_in is self._buffer_in", "nfills == 0", "len(out) == 0", "len(self._buffer_in) == 0",
+                                      "same(self._buffer_in, old(self._buffer_in))",
+                                      "self._n_count == old(self._n_count)", "elstate(self._el) == old(elstate(self._el))"],
+                           decreases="2 * len(self._buffer_in) - nfills")},
+        # nothing is yielded before the block is complete, and the values filled so far stay in the element
+        ensures=UNTOUCHED + ["old(self._n_count) > 0 implies elstate(self._el) == old(elstate(self._el))",
+                             "elstate(self._el) == old(elstate(self._el)) or (self._reset and elstate(self._el) == el_reset(self._el))"],
+        modifies=[]))
+    # ------------------------------------------------------------------ _run_run (run elements)
+    FR = {"_el": "Obj", "_el_reset": "MethodOf[_el,reset]", "bufsize": "Int", "_reset": "Bool",
+          "_yield_on_remainder": "Bool", "_buffer_input": "Bool"}
+    RBLK = "pulled(flow) == _nblk * self.bufsize"
+    RLO = "(_nblk - 1) * self.bufsize"
+    ISBLOCK = ["len(buffer) == self.bufsize", "all(buffer[k] == content(flow)[%s + k] for k in range(self.bufsize))" % RLO]
+    ix.add_class(ClassSpec("FillRequest_run_in", AD, fields=FR, alias_of="FillRequest",
+                           invariant=["self.bufsize >= 1", "not self._yield_on_remainder", "self._buffer_input"]))
+    RUN_IN = Contract(
+        AD, "FillRequest._run_run", name="FillRequest._run_run[buffer_input]",
+        ghost={"elstate": True, "call_count": True},
+        params={"self": "Self[FillRequest_run_in]", "flow": "Iter[V]"}, generator=True, yields="V",
+        requires=["pulled(flow) == 0"],
+        loops={
+            3: LoopSpec(invariant=[RBLK, "_nblk >= 0", "bufsize == self.bufsize", "pulled(flow) == 0 implies len(out) == 0",
+                                   "call_count('run') == _nblk", "call_count('reset') == (_nblk if self._reset else 0)"],
+                        init_ghost={"_nblk": "0", "_base": "0"}, body_ghost={"_nblk": "_nblk + 1", "_base": "len(out)"},
+                        ghost={"_nblk": "Int", "_base": "Int"}, decreases="len(content(flow)) - pulled(flow)"),
+            4: LoopSpec(invariant=[RBLK, "_nblk >= 1", "bufsize == self.bufsize", "len(out) == _base + _i",
+                                   "call_count('run') == _nblk", "call_count('reset') == (_nblk - 1 if self._reset else 0)"] + ISBLOCK),
+        },
+        at_call={
+            # the element runs once per complete block, on exactly the values of that block (in order), when nothing
+            # beyond the block has been pulled and before anything of the block is yielded
+            "run": [RBLK, "call_count('run') == _nblk - 1", "len(out) == _base", "pulled(call_args[0]) == 0", "len(content(call_args[0])) == self.bufsize",
+                    "all(content(call_args[0])[k] == content(flow)[%s + k] for k in range(self.bufsize))" % RLO],
+            "reset": ["self._reset", RBLK, "call_count('reset') == _nblk - 1"]},
+        at_yield=[RBLK] + ISBLOCK + ["0 <= len(out) - _base < len(run_results(self._el, buffer))",
+                                     "yielded == run_results(self._el, buffer)[len(out) - _base]"],
+        # an incomplete last block is read but gives nothing
+        ensures=["pulled(flow) == len(content(flow))", "len(content(flow)) < self.bufsize implies len(out) == 0"],
+        modifies=["flow"])
+    # ---- yield_on_remainder: the element gets chain([first value], islice(flow, bufsize - 1)) and pulls from the flow itself
+    ix.add_class(ClassSpec("FillRequest_run_yor", AD, fields=dict(F, _buffer_input="Bool"), alias_of="FillRequest",
+                           invariant=["self.bufsize >= 1", "self._yield_on_remainder"]))
+    XS = "run_input(loop_iter(1))"
+    YBLOCK = ["len({xs}) >= 1", "%s + len({xs}) <= len(content(flow))" % RLO, "len({xs}) <= self.bufsize",
+              "len({xs}) == self.bufsize or %s + len({xs}) == len(content(flow))" % RLO,
+              "all({xs}[k] == content(flow)[%s + k] for k in range(len({xs})))" % RLO]
+    YBLOCK = [c.format(xs=XS) for c in YBLOCK]
+
+    def run_yor(name, extra_requires, props):
+        return Contract(
+            AD, "FillRequest._run_run", name="FillRequest._run_run[yield_on_remainder%s]" % name,
+            ghost={"elstate": True, "call_count": True, "run_consumes": True},
+            params={"self": "Self[FillRequest_run_yor]", "flow": "Iter[V]"}, generator=True, yields="V",
+            requires=["pulled(flow) == 0"] + extra_requires,
+            loops={
+                # every block starts at a multiple of bufsize (or the flow is exhausted)
+                0: LoopSpec(invariant=["_nblk >= 0", "bufsize == self.bufsize", "call_count('run') == _nblk",
+                                       RBLK + " or (pulled(flow) == len(content(flow)) and pulled(flow) < _nblk * self.bufsize)",
+                                       "pulled(flow) == 0 implies len(out) == 0",
+                                       "self._reset and _nblk >= 1 implies elstate(self._el) == el_reset(self._el)",
+                                       "not self._reset implies elstate(self._el) == old(elstate(self._el))"],
+                            init_ghost={"_nblk": "0", "_base": "0"}, body_ghost={"_nblk": "_nblk + 1", "_base": "len(out)"},
+                            ghost={"_nblk": "Int", "_base": "Int"}, decreases="len(content(flow)) - pulled(flow)"),
+                # the element was given exactly the values of the block (all of bufsize, or what is left of the flow)
+                1: LoopSpec(invariant=["_nblk >= 1", "bufsize == self.bufsize", "call_count('run') == _nblk", "len(out) == _base + _i",
+                                       "%s + 1 <= pulled(flow) <= %s + len(%s)" % (RLO, RLO, XS),
+                                       "same(content(loop_iter(1)), run_results(self._el, %s))" % XS,
+                                       "not self._reset implies elstate(self._el) == old(elstate(self._el))"] + YBLOCK),
+            },
+            at_call={"run": ["call_count('run') == _nblk - 1", "pulled(flow) == %s + 1" % RLO, "len(out) == _base"]},
+            at_yield=["pulled(flow) <= _nblk * self.bufsize",
+                      "0 <= len(out) - _base < len(run_results(self._el, %s))" % XS,
+                      "yielded == run_results(self._el, %s)[len(out) - _base]" % XS],
+            ensures=["pulled(flow) == len(content(flow))", "len(content(flow)) == 0 implies len(out) == 0"],
+            modifies=["flow"])
+    # the elements the property speaks about read the block they are given to its end
+    RUN_YOR = run_yor("", ["reads_all(self._el)"], None)
+    ix.add(Contract(AD, "FillRequest._run_run", props=["C16"], cases=[RUN_IN, RUN_YOR]))
+    # ------------------------------------------------------------------ FillRequestSeq / FillComputeSeq / FillSeq wiring
+    FRS = "lena/core/fill_request_seq.py"
+    FCS = "lena/core/fill_compute_seq.py"
+    FS = "lena/core/fill_seq.py"
+    AFTER = "seq_run(self._after._data_seq, {src}, len(self._after._data_seq))"
+    # a Sequence as FillRequestSeq.request sees it: its truth value is len(self._seq) != 0 (LenaSequence.__len__), its run
+    # goes over _data_seq, the elements of _seq that process data (LenaSequence.__init__ drops the others: invariant)
+    LS = "lena/core/lena_sequence.py"
+    ix.add_class(ClassSpec("Sequence_t", "lena/core/sequence.py", fields={"_data_seq": "Lst[Obj]", "_seq": "Lst[Obj]"},
+                           alias_of="Sequence", bases=["LenaSequence"], invariant=["len(self._data_seq) <= len(self._seq)"]))
+    # The truth value of a sequence is `len(self._seq) != 0` (LenaSequence.__len__): pyvc no longer takes an instance of a
+    # class with __len__ / __bool__ for true.  The Sequence view of C01 gets the field that decides it, and the two Source views
+    # whose tail is a Sequence get what Source.__init__ establishes (a Sequence tail is only made from >= 1 elements), so that
+    # `if self._tail:` in Source.__call__ is decided as before -- now from a stated invariant instead of an engine shortcut.
+    if "Sequence" in ix.classes:
+        ix.classes["Sequence"].fields.setdefault("_seq", "Lst[Obj]")
+        for view in ("Source_with_tail", "Source_iterable"):
+            if view in ix.classes and "len(self._tail._seq) >= 1" not in ix.classes[view].invariant:
+                ix.classes[view].invariant.append("len(self._tail._seq) >= 1")
+    ix.add(Contract(LS, "LenaSequence.__len__", props=["C16", "C01"], params={"self": "Self[Sequence]"}, result="Int",
+                    ensures=["result == len(self._seq)"]))
+    ix.add_class(ClassSpec("FillRequestSeq", FRS, fields={"_fill_request": "Obj", "_after": "Inst[Sequence_t]"}))
+    ix.add(Contract(
+        FRS, "FillRequestSeq.request", props=["C16"], ghost={"elstate": True, "call_count": True},
+        params={"self": "Self[FillRequestSeq]"}, result="Iter[V]",
+        requires=["len(self._after._data_seq) <= len(self._after._seq)"],      # (the invariant of the Sequence view)
+        # `Request the results ...; if the sequence after FillRequest is not empty, it postprocesses the results`:
+        # one request of the element per request, its results pass through the elements that follow it, in order
+        ensures=["pulled(result) == 0",
+                 "same(content(result), %s)" % AFTER.format(src="el_request(self._fill_request, old(elstate(self._fill_request)))"),
+                 "elstate(self._fill_request) == el_request_state(self._fill_request, old(elstate(self._fill_request)))",
+                 "call_count('request') == 1", "call_count('reset') == 0", "call_count('fill') == 0"]))
+    ix.add(Contract(
+        FRS, "FillRequestSeq.reset", props=["C16"], ghost={"elstate": True, "call_count": True},
+        params={"self": "Self[FillRequestSeq]"},
+        ensures=["elstate(self._fill_request) == el_reset(self._fill_request)", "call_count('reset') == 1",
+                 "call_count('request') == 0", "call_count('fill') == 0"]))
+    ix.add_class(ClassSpec("FillComputeSeq", FCS, fields={"_fill_compute": "Obj", "_after": "Inst[Sequence_t]"}))
+    ix.add(Contract(
+        FCS, "FillComputeSeq.compute", props=["C16"], ghost={"elstate": True, "call_count": True},
+        params={"self": "Self[FillComputeSeq]"}, result="Iter[V]",
+        ensures=["pulled(result) == 0",
+                 "same(content(result), %s)" % AFTER.format(src="el_compute(self._fill_compute, elstate(self._fill_compute))"),
+                 "elstate(self._fill_compute) == old(elstate(self._fill_compute))", "call_count('compute') == 1"]))
+    # a preprocessing step of FillSeq (the `fill` of FillRequestSeq / FillComputeSeq): the value is transformed once by
+    # the FillInto adapter of a callable and fills the next element once
+    ix.add_class(ClassSpec("_Fill", FS, fields={"_fill_into_el": "Inst[FillInto1]", "_fill_el": "Obj"}))
+    ix.add(Contract(
+        FS, "_Fill.fill", props=["C16"], ghost={"elstate": True},
+        params={"self": "Self[_Fill]", "value": "V"},
+        raises={"LenaStopFill": "?"},
+        ensures=["elstate(self._fill_el) == el_fill(self._fill_el, old(elstate(self._fill_el)), el_call(self._fill_into_el._el, value))"]))
+    # ------------------------------------------------------------------ clauses of the property that FAIL on the unchanged tree
+    # (known_findings.json, C16; registered with props=[]: they are not part of the check of C16, run them with tools/dbg.py)
+    # (1) fill() past a complete block with buffer_output: `every call returns in finite time` -- the results of the block
+    #     are to be buffered, the element (reset iff reset) takes the value.  The real code extends _buffer_out by a
+    #     generator that iterates _buffer_out itself.
+    ix.add(Contract(
+        AD, "FillRequest.fill", qualkey="FillRequest_out.fill#past-full-block",
+        name="FillRequest.fill[buffer_output, past a complete block] (FAILS: known finding)",
+        props=[], ghost={"elstate": True},
+        params={"self": "Self[FillRequest_out]", "value": "V"},
+        requires=["self._n_count == self.bufsize", "len(self._buffer_out) == 0", "not self._yield_on_remainder"],
+        raises={"LenaStopFill": "?"},
+        ensures=["len(self._buffer_out) == len(%s)" % REQ,
+                 "all(self._buffer_out[k] == %s[k] for k in range(len(self._buffer_out)))" % REQ,
+                 "elstate(self._el) == el_fill(self._el, %s, value)" % S1, "self._n_count == 1"],
+        modifies=["self._n_count", "self._buffer_out"]))
+    # (2) request() before the block is complete (buffer_input, reset): `every value is accounted for exactly once` -- the
+    #     values filled so far must stay in the element.  The real code resets the element at the end of request().
+    ix.add(Contract(
+        AD, "FillRequest.request", qualkey="FillRequest_in.request#partly-filled",
+        name="FillRequest.request[buffer_input, partly filled element] (FAILS: known finding)", props=[], ghost={"elstate": True},
+        params={"self": "Self[FillRequest_in]"}, generator=True, yields="V",
+        requires=["not self._yield_on_remainder", "0 < self._n_count < self.bufsize"],
+        loops={0: UNREACHABLE, 4: UNREACHABLE,
+               3: LoopSpec(invariant=["buffer_in is self._buffer_in", "nfills == 0", "len(out) == 0", "len(self._buffer_in) == 0",
+                                      "same(self._buffer_in, old(self._buffer_in))",
+                                      "self._n_count == old(self._n_count)", "elstate(self._el) == old(elstate(self._el))"],
+                           decreases="2 * len(self._buffer_in) - nfills")},
+        ensures=UNTOUCHED + ["elstate(self._el) == old(elstate(self._el))"],
+        modifies=[]))
+    # (3) request() with a partial block waiting in the input buffer: the complete block is yielded, the buffered values move
+    #     into the element exactly once, counted (so that the next fills complete THIS block).  The real code fills them into
+    #     the element, keeps them in the buffer as well, does not count them and (reset) clears the element.
+    ix.add(Contract(
+        AD, "FillRequest.request", qualkey="FillRequest_in.request#partial-buffer",
+        name="FillRequest.request[buffer_input, partial block buffered] (FAILS: known finding)", props=[], ghost={"elstate": True},
+        params={"self": "Self[FillRequest_in]"}, generator=True, yields="V",
+        requires=["not self._yield_on_remainder", "self._n_count == self.bufsize", "0 < len(self._buffer_in) < self.bufsize"],
+        loops={0: LoopSpec(invariant=["len(out) == _i", "self._n_count == self.bufsize", "same(self._buffer_in, %s)" % B0,
+                                      "elstate(self._el) == el_request_state(self._el, %s)" % S0]),
+               4: UNREACHABLE,
+               3: LoopSpec(invariant=["buffer_in is self._buffer_in", "bufsize == self.bufsize", "0 <= nfills <= len(self._buffer_in)",
+                                      "same(self._buffer_in, %s)" % B0, "len(out) == " + L0, "self._n_count == 0",
+                                      "elstate(self._el) == fold_fill_at(self._el, %s, %s, 0, nfills)" % (S1, B0)],
+                           decreases="2 * len(self._buffer_in) - nfills")},
+        ensures=["len(out) == " + L0, "self._n_count == len(%s)" % B0, "len(self._buffer_in) == 0",
+                 "elstate(self._el) == fold_fill_at(self._el, %s, %s, 0, len(%s))" % (S1, B0, B0)],
+        modifies=["self._n_count", "self._buffer_in"]))
+    # (4) run() around a run element that stops reading its block early (e.g. lena.flow.Slice(1)), yield_on_remainder: `yields
+    #     block by block ... for each consecutive block of n values` -- every block must start at a multiple of bufsize.
+    #     The real code starts the next block where the element stopped reading.  (buffer_output: not reached, see the report)
+    PART = run_yor(", element may stop reading early] (FAILS: known finding)", [], None)
+    PART.qualkey = "FillRequest._run_run#partial-consumer"
+    PART.props = []
+    ix.add(PART)
+    # (5) NEW (docstring of FillRequest.__init__: with yield_on_remainder `the output will be yielded even if the element was
+    #     filled less than bufsize times (but at least once)`; run(): `nothing is yielded` for no fill): request() of an element
+    #     that holds no value yields nothing.  The real code calls el.request() unconditionally when yield_on_remainder is set.
+    ix.add(Contract(
+        AD, "FillRequest.request", qualkey="FillRequest_out.request#yor-empty",
+        name="FillRequest.request[yield_on_remainder, nothing filled] (FAILS: new finding)", props=[], ghost={"elstate": True},
+        params={"self": "Self[FillRequest_out]"}, generator=True, yields="V",
+        requires=["self._yield_on_remainder", "self._n_count == 0", "len(self._buffer_out) == 0"],
+        loops={0: UNREACHABLE, 1: LoopSpec(invariant=["_i == 0", "len(out) == 0"]), 2: LoopSpec(invariant=["len(out) == _i"])},
+        ensures=["len(out) == 0", "elstate(self._el) == old(elstate(self._el))"],
+        modifies=[]))
